@@ -27,12 +27,13 @@ type Req struct {
 
 // Resp is the recorded response.
 type Resp struct {
-	Status int
-	Header http.Header
-	Body   string
-	Panic  any
-	Stack  string
+	Status   int
+	Header   http.Header
+	Body     string
+	Panic    any
+	Stack    string
 	ParseErr error
+	Info     []Informational // interim 1xx responses, in order
 }
 
 // Parse turns the description into the *http.Request a Go server would hand to a handler.
@@ -86,9 +87,37 @@ func Serve(h http.Handler, r *Req) *Resp {
 	return ServeHTTP(h, req)
 }
 
+// clientWriter is the ResponseWriter handed to the handler: httptest's recorder, except that an
+// informational status (1xx other than 101) is what it is for net/http's server — an interim
+// response sent with the current headers, after which the handler goes on to the final one (the
+// recorder would take the first WriteHeader for the final status).
+type clientWriter struct {
+	rec  *httptest.ResponseRecorder
+	Info []Informational
+}
+
+// Informational is an interim (1xx) response the client received before the final one.
+type Informational struct {
+	Status int
+	Header http.Header
+}
+
+func (w *clientWriter) Header() http.Header               { return w.rec.Header() }
+func (w *clientWriter) Write(b []byte) (int, error)       { return w.rec.Write(b) }
+func (w *clientWriter) WriteString(s string) (int, error) { return w.rec.WriteString(s) }
+func (w *clientWriter) Flush()                            { w.rec.Flush() }
+func (w *clientWriter) WriteHeader(code int) {
+	if code >= 100 && code <= 199 && code != http.StatusSwitchingProtocols {
+		w.Info = append(w.Info, Informational{Status: code, Header: w.rec.Header().Clone()})
+		return
+	}
+	w.rec.WriteHeader(code)
+}
+
 // ServeHTTP runs an already built request.
 func ServeHTTP(h http.Handler, req *http.Request) (out *Resp) {
 	rec := httptest.NewRecorder()
+	cw := &clientWriter{rec: rec}
 	out = &Resp{}
 	func() {
 		defer func() {
@@ -101,8 +130,9 @@ func ServeHTTP(h http.Handler, req *http.Request) (out *Resp) {
 				out.Stack = string(buf[:runtime.Stack(buf, false)])
 			}
 		}()
-		h.ServeHTTP(rec, req)
+		h.ServeHTTP(cw, req)
 	}()
+	out.Info = cw.Info
 	// the header snapshot taken when the status line was written: what a client receives
 	// (rec.Header() would also show headers a handler adds too late)
 	res := rec.Result()
